@@ -252,6 +252,9 @@ pub const POSIX_STRINGS: &[&str] = &[
     "EST5EDT,M3.2.0/23:30,M11.1.0/0:30",
     "<-01>1<+00>,M3.5.0/23:15,M10.5.0/0:45",
     "AAA-3BBB-5,M4.1.6/22:30,M9.5.0/1",
+    // daylight time with the same offset as standard time: only the flag and abbreviation change
+    "EST5EDT5,M3.2.0,M11.1.0",
+    "<+03>-3<+03d>-3,J80/0,J300/0",
 ];
 
 /// POSIX rules that are legal but hostile: the daylight period is shorter than the clock shift
